@@ -5,6 +5,8 @@ _processCfg, _interfaceThread, restart(), shutdown(), real TCPServer.__init__ / 
  - a threaded fake UDP socket for the real UDPListener thread: a broadcast discover request is handed to every
    open discovery socket of the process, the harness waits until each responder asks for the next datagram.
 Real threads, no sleeps for synchronisation (events with generous time-outs only to detect a hang).
+Schedule control over the start of a responder thread: it can be held before its first statement ('start') or
+inside its first sendto ('send') until the harness releases it - restart / shutdown can be issued in between.
 """
 import errno
 import os
@@ -37,6 +39,9 @@ class ThreadedUDP:
         self.dead = threading.Event()
         self.reads_after_close = 0
         self.mark = 0
+        self.hold = CUR[0].next_hold        # '' | 'start' | 'send': where the responder thread is held
+        self.held = threading.Event()       # the thread has reached the hold point
+        self.release = threading.Event()
         CUR[0].sockets.append(self)
 
     def setsockopt(self, *a):
@@ -58,6 +63,9 @@ class ThreadedUDP:
         return item[0][:bufsize], item[1]
 
     def sendto(self, data, *rest):
+        if self.hold == 'send' and not self.held.is_set():
+            self.held.set()
+            self.release.wait()
         if self.closed:
             raise OSError(errno.EBADF, 'Bad file descriptor')
         self.sent.append((bytes(data), rest[-1]))
@@ -132,6 +140,9 @@ def _patch():
         """the real responder; only reports when its thread ends"""
         def run(self):
             try:
+                if self.sock.hold == 'start':       # nothing of the real run() has been executed yet
+                    self.sock.held.set()
+                    self.sock.release.wait()
                 super().run()
             except StopThread:
                 self.sock.spinning = True
@@ -157,6 +168,7 @@ class World:
         self.listening = set()
         self.ws_listening = set()
         self.gen = 0
+        self.next_hold = ''
         self.error = ''
         rot = cfg.get('salt', 0) % len(PORTS)
         self.ports = (PORTS[rot:] + PORTS[:rot])[:len(cfg['schemes'])]
@@ -211,7 +223,7 @@ class World:
         while time.time() - t0 < WAIT:
             if len(self.sockets) > nsock:
                 s = self.sockets[-1]
-                if s.idle.is_set() or s.dead.is_set():
+                if s.idle.is_set() or s.dead.is_set() or s.held.is_set():
                     self.gen += 1
                     s.gen = self.gen
                     return True
@@ -221,13 +233,29 @@ class World:
         self.error = self.error or 'hang waiting for the responder'
         return False
 
-    def boot(self):
+    def pending(self):
+        return [s for s in self.sockets if s.held.is_set() and not s.release.is_set()]
+
+    def run(self):
+        """release the held responder threads (oldest first) and let each run until it waits or ends"""
+        for s in self.pending():
+            s.release.set()
+            t0 = time.time()
+            while not (s.idle.is_set() or s.dead.is_set()) and time.time() - t0 < WAIT:
+                time.sleep(0.0005)
+            if not (s.idle.is_set() or s.dead.is_set()):
+                self.error = self.error or 'hang after releasing a responder'
+        return True
+
+    def boot(self, hold=''):
+        self.next_hold = hold
         self.starts = 1
         self.thread = threading.Thread(target=self._run, daemon=True)
         self.thread.start()
         return self._wait_up(0)
 
-    def restart(self):
+    def restart(self, hold=''):
+        self.next_hold = hold
         n = len(self.sockets)
         self.starts += 1
         self.srv.restart()
@@ -269,6 +297,7 @@ class World:
                 self.thread.join(WAIT)
             for s in self.sockets:
                 s.close()
+                s.release.set()
             for s in self.sockets:
                 s.dead.wait(2)
         finally:
